@@ -164,6 +164,30 @@ def codec(ctx: Ctx, rule="R-C07-CODEC") -> None:
     for k, (test_part, ret) in want_enc.items():
         ok = any(test_part in t and r == ret for t, r in branches.items())
         ctx.check(ok, rule, enc, f"encoder branch for {k}", f"{ret}", f"_RepidJSONEncoder.default has no branch `{test_part} -> {ret}` (found {branches})", instance=f"encoder[{k}]")
+    # pydantic models are dumped whole: no option that selects, drops or renames fields (the consumer binds by the actor's parameter names
+    # and applies the *actor's* defaults to whatever is missing)
+    LOSSY = {"include", "exclude", "exclude_unset", "exclude_defaults", "exclude_none", "by_alias", "context"}
+    dumps = []
+    for q in ("repid.serializer.default_serializer", "repid._utils.json_encoder._RepidJSONEncoder.default"):
+        fn = ctx.func(q)
+        for c in ast.walk(fn.node):
+            if isinstance(c, ast.Call) and isinstance(c.func, ast.Attribute) and c.func.attr in ("model_dump_json", "model_dump", "json", "dict") \
+                    and isinstance(c.func.value, ast.Name) and c.func.value.id in [p_.arg for p_ in fn.params()]:
+                dumps.append((fn, c))
+    ctx.floor(rule, len(dumps), 4, "pydantic dump calls in the serializer and the JSON encoder")
+    for fn, c in dumps:
+        bad = sorted(k.arg for k in c.keywords if k.arg in LOSSY and not C.is_const(k.value, False) and not C.is_const(k.value, None)) + (["**"] if any(k.arg is None for k in c.keywords) else [])
+        ctx.check(not bad, rule, fn, f"{unparse(c.func)}(...) dumps every field", "no field-selecting / renaming option",
+                  f"{fn.short()} dumps pydantic models with {unparse(c)}: option(s) {bad} drop or rename fields, so the consumer does not receive the argument values "
+                  "that were enqueued (fields left at the model's defaults vanish and the actor's own defaults are applied instead)", node=c,
+                  instance=f"{fn.short()}: {c.func.attr} whole model")
+    ser = ctx.func("repid.serializer.default_serializer")
+    srets = C.own_returns(ser)
+    ctx.floor(rule, len(srets), 2, "returns of default_serializer")
+    for r_ in srets:
+        ok = r_.value is not None and "data" in C.names_in(C.inline_locals(ser, r_.value, calls="all") or r_.value)
+        ctx.check(ok, rule, ser, f"default_serializer returns an encoding of data: {unparse(r_.value)[:50] if r_.value else 'None'}", "derived from the argument",
+                  f"default_serializer returns {unparse(r_.value) if r_.value else 'None'}, which does not depend on the arguments", node=r_, instance=f"serializer return {unparse(r_.value)[:40] if r_.value else ''}")
     je = ctx.prog.module("repid._utils.json_encoder").assigns.get("JSON_ENCODER")
     ok = isinstance(je, ast.Call) and unparse(C.kw(je, "separators")) == "(',', ':')"
     ctx.check(ok, rule, "repid._utils.json_encoder", "JSON_ENCODER uses compact separators", "(',', ':')", f"JSON_ENCODER is {unparse(je)[:80]} (the bucket-marker window assumes compact output)",
@@ -366,7 +390,7 @@ def wire(ctx: Ctx, rule="R-C07-WIRE") -> None:
 
     def origin(v):
         out = set()
-        for x in C.expand_locals(o, v, depth=3):
+        for x in C.expand_locals(o, v):
             t = unparse(x)
             for tag in ("properties.message_id", "headers.get('topic'", "headers.get('queue'", "properties.priority"):
                 if tag in t:
@@ -415,19 +439,9 @@ def falsy(ctx: Ctx, rule="R-C07-FALSY") -> None:
     pr = ctx.prog.cls("repid.data.priorities.PrioritiesT")
     vals = {k: v.value for k, v in pr.attrs.items() if isinstance(v, ast.Constant)}
     ctx.check(0 in vals.values(), rule, pr.qualname, "domain fact: a priority with value 0 exists", str(vals), "no falsy priority any more (R-C07-FALSY domain fact outdated)", instance="priority domain")
-    # timedelta truncation anywhere in the data / job / processor modules
-    trunc = []
-    for fn in ctx.prog.iter_functions():
-        if not fn.module.name.startswith(("repid.data", "repid.job", "repid._processor", "repid.connections", "repid._utils.json_encoder", "repid.message", "repid.dependencies.message")):
-            continue
-        for a in ast.walk(fn.node):
-            if isinstance(a, ast.Attribute) and a.attr in ("seconds", "microseconds") and not isinstance(a.value, ast.Call):
-                trunc.append((fn, a))
-    for fn, a in trunc:
-        ctx.fail(rule, fn, unparse(a), f"{fn.short()} reads `{unparse(a)}`: the .seconds/.microseconds field of a timedelta drops the days part - durations of a day or more are "
-                 "truncated (use total_seconds())", node=a, instance=f"timedelta truncation in {fn.short()}")
-    if not trunc:
-        ctx.ok(rule, "no timedelta field truncation", "no .seconds/.microseconds reads in data, job, processor and broker modules")
+    from .delay import whole_duration_rule
+
+    whole_duration_rule(ctx, rule)  # durations of a day or more are not truncated to their sub-day remainder
 
 
 # ----------------------------------------------------------------------------- ALPHABET
